@@ -495,6 +495,17 @@ func c10One(e *Env, col *Collector, idx uint64) {
 			Engine: "rejected: " + errClass(err), Model: "a documented use must be accepted", Seed: e.Seed, Index: idx, Properties: []string{"C10"}})
 		return
 	}
+	// the plan-time validation (argument counts and static argument types) must accept it too
+	if perr, panicked := safely(func() string {
+		if _, err := kvql.NewOptimizer(q).BuildPlan(NewRefStore(nil)); err != nil {
+			return errClass(err)
+		}
+		return ""
+	}); perr != "" || panicked {
+		col.Find(Finding{Kind: "property", Group: "EVAL", Check: "C10-rejected-at-plan:" + c.name, Case: q, Line: q,
+			Engine: "BuildPlan: " + perr, Model: "a documented use must be accepted", Seed: e.Seed, Index: idx, Properties: []string{"C10", "C14"}})
+		return
+	}
 	target := stmt.Fields[len(stmt.Fields)-1]
 	chunk := genChunk(r, max(c.store, 0)%5)
 	if len(chunk) == 0 {
@@ -722,6 +733,26 @@ func c10Make(g *c10Gen) c10Case {
 			want: always(func(kv kvql.KVPair) string { return cText(string(kv.Value)) })}
 	case 8:
 		l := g.list(0)
+		if r.Chance(1, 3) {
+			// the count handed on to a text consumer (it travels as a Go int, unlike every other integer)
+			wrap := pick(r, []struct {
+				name, tmpl string
+				f          func(n int) string
+			}{
+				{"str(len)", "str(len(%s))", func(n int) string { return cText(strconv.Itoa(n)) }},
+				{"join(len)", "join('-', len(%s), 'n')", func(n int) string { return cText(strconv.Itoa(n) + "-n") }},
+				{"strlen(len)", "strlen(len(%s))", func(n int) string { return cInt(int64(len(strconv.Itoa(n)))) }},
+				{"len+text", "'n=' + str(len(%s))", func(n int) string { return cText("n=" + strconv.Itoa(n)) }},
+				{"len*2", "len(%s) * 2 + 1", func(n int) string { return cInt(int64(n*2 + 1)) }},
+			})
+			return c10Case{name: wrap.name + ":" + l.kind, expr: fmt.Sprintf(wrap.tmpl, l.text), store: l.store, want: func(kv kvql.KVPair) (string, bool) {
+				el := l.elems(kv)
+				if el == nil && l.kind == "json" {
+					return "", false
+				}
+				return wrap.f(len(el)), true
+			}}
+		}
 		return c10Case{name: "len:" + l.kind, expr: "len(" + l.text + ")", store: l.store, want: func(kv kvql.KVPair) (string, bool) {
 			el := l.elems(kv)
 			if el == nil && l.kind == "json" {
